@@ -151,16 +151,19 @@ def getBasename (path : Bytes) : Bytes := path.drop (afterLastSlash path)
 def fltSuffixes : List Bytes :=
   [[0x2e, 0x4e, 0x54], [0x2e, 0x6e, 0x74], [0x2e, 0x41, 0x53], [0x2e, 0x61, 0x73]]   -- .NT .nt .AS .as
 
-/-- `char filename[1024]` of `flt_load` -/
-def fltBufSize : Nat := 1024
+/-- `char filename[1024]` of `flt_load` (generated from the declaration) -/
+def fltBufSize : Nat := Gen.OpenSites.fltBufSize
 
 /-- the names `flt_load` tries, in order, until one opens; nothing when the
 module was not loaded from a path (`m->dirname`/`m->basename` NULL).
-`snprintf(filename, 1024, "%s%s.NT", …)` silently truncates. -/
+`snprintf(filename, 1024, "%s%s.NT", …)` silently truncates; whether the code
+tests the length first is a generated fact (`fltLengthChecked`). -/
 def fltCompanions (modulePath : Option Bytes) : List Bytes :=
   match modulePath with
   | none => []
-  | some p => fltSuffixes.map (fun sfx => (getDirname p ++ getBasename p ++ sfx).take (fltBufSize - 1))
+  | some p =>
+    if Gen.OpenSites.fltLengthChecked && !(p.length + 3 < fltBufSize) then []
+    else fltSuffixes.map (fun sfx => (getDirname p ++ getBasename p ++ sfx).take (fltBufSize - 1))
 
 def smp : Bytes := [0x73, 0x6d, 0x70]
 def dotSet : Bytes := [0x2e, 0x73, 0x65, 0x74]
